@@ -68,9 +68,10 @@ def encPool (p : PoolCfg) : Bytes :=
 def encCfg (mac : Bytes) (ip : UInt32) (ifIndex : UInt32) : Bytes :=
   (if mac.length ≥ 6 then mac.take 6 else List.replicate 6 0) ++ [0, 0] ++ le32 ip ++ le32 ifIndex
 
-/-- `MACToUint64` -/
+/-- `MACToUint64`: `result = (result << 8) | uint64(mac[i])` for the first six bytes, written arithmetically
+    (`(r << 8) | b = r * 256 + b` for a byte `b`; the value stays below 2^48) -/
 def macToU64 (mac : Bytes) : UInt64 :=
-  if mac.length < 6 then 0 else (mac.take 6).foldl (fun acc b => (acc <<< 8) ||| b.toUInt64) 0
+  if mac.length < 6 then 0 else UInt64.ofNat ((mac.take 6).foldl (fun acc b => acc * 256 + b.toNat) 0)
 
 /-- key bytes of subscriber_pools -/
 def macKeyOf (mac : Bytes) : Bytes := le64 (macToU64 mac)
@@ -116,6 +117,7 @@ structure Srv where
   defaultPool : Option UInt32 := none   -- PoolManager.defaultPoolID (the first pool added)
   maps : Maps := {}
   now : Nat := 0                        -- time.Now().Unix()
+  serverIp : UInt32 := 0                -- ServerConfig.ServerIP
 
 def assignmentOf (l : Lease) (p : PoolCfg) : Assignment :=
   { poolId := l.poolId, ip := l.ip, vlanId := p.vlanId, clientClass := p.clientClass,
@@ -154,6 +156,39 @@ def eraseCache (m : Maps) (l : Lease) : Maps :=
   let m := if l.stag > 0 || l.ctag > 0 then removeVlanSubscriber m l.stag l.ctag else m
   if l.cidBytes.isEmpty then m else removeCidSubscriber m l.cidBytes
 
+/-- the circuit-id of the new lease: this request's, else (renewal) the one preserved from the existing lease
+    ("Preserve Option 82 if not present in current request") -/
+def newCid (ex : Option Lease) (reqCid : Option Bytes) : Option Bytes :=
+  match ex with
+  | none => reqCid
+  | some l => match reqCid with
+    | some c => some c
+    | none => l.cid
+
+/-- the circuit-id whose index and cache entries go because the lease changed circuit-id: the existing lease's,
+    if it is non-empty, differs from the new one and the circuit index still holds that lease for it -/
+def staleCid (byCid : AMap Bytes Lease) (ex : Option Lease) (l : Lease) : Option Bytes :=
+  match ex with
+  | some l0 =>
+    if !l0.cidBytes.isEmpty && l0.cidBytes != l.cidBytes && AMap.lookup byCid l0.cidBytes == some l0
+    then some l0.cidBytes else none
+  | none => none
+
+/-- the circuit index / the maps after the stale circuit-id (if any) was removed -/
+def staleIdx (byCid : AMap Bytes Lease) : Option Bytes → AMap Bytes Lease
+  | some c => AMap.erase byCid c
+  | none => byCid
+def staleMaps (m : Maps) : Option Bytes → Maps
+  | some c => removeCidSubscriber m c
+  | none => m
+
+/-- store the lease, maintain the circuit index, write the cache -/
+def Srv.commit (s : Srv) (p : PoolCfg) (l : Lease) (stale : Option Bytes) : Srv :=
+  { s with leases := AMap.insert s.leases l.mac l,
+           byCid := if l.cidBytes.isEmpty then staleIdx s.byCid stale
+                    else AMap.insert (staleIdx s.byCid stale) l.cidBytes l,
+           maps := writeCache (staleMaps s.maps stale) l p }
+
 /-- `handleRequest` after the decision to ACK `ip` (the part that creates the lease and writes the cache).
     `reqCid` = the circuit-id of THIS request's option 82 (`none`: no option 82 / no sub-option 1). -/
 def Srv.ack (s : Srv) (mac : Bytes) (ip : UInt32) (relayed : Bool) (reqCid : Option Bytes) : Srv :=
@@ -164,23 +199,8 @@ def Srv.ack (s : Srv) (mac : Bytes) (ip : UInt32) (relayed : Bool) (reqCid : Opt
   match poolId?.bind (AMap.lookup s.pools) with
   | none => s        -- "pool not found": NAK, unreachable after an ACK decision
   | some p =>
-    let cid := match ex with
-      | none => reqCid
-      | some l => match reqCid with
-        | some c => some c
-        | none => l.cid            -- "Preserve Option 82 if not present in current request"
-    let l : Lease := { mac := mac, ip := ip, poolId := p.id, exp := s.now + p.leaseSecs.toNat, cid := cid }
-    -- the circuit-id changed: the old circuit-id's index and cache entries go, if they still are this lease's
-    let stale : Option Bytes := match ex with
-      | some l0 =>
-        if !l0.cidBytes.isEmpty && l0.cidBytes != l.cidBytes && AMap.lookup s.byCid l0.cidBytes == some l0
-        then some l0.cidBytes else none
-      | none => none
-    let byCid0 := match stale with | some c => AMap.erase s.byCid c | none => s.byCid
-    let maps0 := match stale with | some c => removeCidSubscriber s.maps c | none => s.maps
-    { s with leases := AMap.insert s.leases mac l,
-             byCid := if l.cidBytes.isEmpty then byCid0 else AMap.insert byCid0 l.cidBytes l,
-             maps := writeCache maps0 l p }
+    let l : Lease := { mac := mac, ip := ip, poolId := p.id, exp := s.now + p.leaseSecs.toNat, cid := newCid ex reqCid }
+    s.commit p l (staleCid s.byCid ex l)
 
 /-- removal of a lease from the lease table, the circuit index and the cache -/
 def Srv.drop (s : Srv) (l : Lease) : Srv :=
@@ -202,8 +222,11 @@ def Srv.decline (s : Srv) (mac : Bytes) (opt50 : Option UInt32) : Srv :=
 
 /-- `cleanupExpiredLeases`: every lease with `now.After(ExpiresAt)` -/
 def Srv.cleanup (s : Srv) : Srv :=
-  let expired := (AMap.vals s.leases).filter (fun l => decide (s.now > l.exp))
-  expired.foldl (fun s l => s.drop l) s
+  -- first pass: the keys of the expired leases; second pass: `lease := s.leases[mac]; delete …` for each
+  let expired := (s.leases.filter (fun e => decide (s.now > e.2.exp))).map (·.1)
+  expired.foldl (fun s m => match AMap.lookup s.leases m with
+    | some l => s.drop { l with mac := m }
+    | none => s) s
 
 inductive Op where
   | setCfg (mac : Bytes) (ip ifIndex : UInt32)
